@@ -131,6 +131,15 @@ CHECKS = {
         "thread interleavings are the interpreter's (10us switch interval), so the thread part can only refute",
         "property-based testing: Hypothesis-generated operation histories with snapshot (purity) and history-independence invariants; concurrent differential against sequential baseline",
     ),
+    "C06": (
+        "exploration",
+        "Hypothesis-generated client configurations x request multisets (all five statement kinds, account-info, profile, tax) composed "
+        "as dry runs; the bytes are read by an independent header reader and strict scanner and compared field by field with a "
+        "reference model of the request (sign-on, FI, CLIENTUID rule, wrappers per kind in order, dates as instants, flags, message "
+        "sets, distinct TRNUIDs); the library's own parse of the same bytes must agree; v2 without end tags must be refused.",
+        "UUIDs / DTCLIENT only enter as distinct / valid; entity-looking strings excluded by construction (open known finding)",
+        "property-based testing: Hypothesis generation; reference-model oracle + differential between an independent reader and the library's reader",
+    ),
 }
 
 PENDING_REASON = "check not built yet in this round (planned in DESIGN.md §3); not claimed until its machinery exists and is quiet on the unchanged tree"
